@@ -69,6 +69,8 @@ type OutOpts struct {
 	NullObjZero    bool // F28: null for a nullable object may decode to a zero struct
 	NamedArrayAnon bool // inline object items of a named array type are anonymous structs: nothing is collected/defaulted
 	BytesAsBase64  bool // --min-sized-ints: an array of uint8 is a []byte and marshals as a base64 string
+	WrappedEnum    bool // a wrapped (mixed) enum at a non-addressable position marshals as {"Value": x}
+	AddPropFloat   bool // additional properties pass through a float64 raw map: integers beyond 2^53 are not preserved
 }
 
 // CompareOut compares the input document with the JSON re-marshalled from the decoded Go value.
@@ -90,6 +92,11 @@ func CompareOut(s *sg.Schema, in, out any, o OutOpts) []OutDiff {
 		if s.Ext != nil {
 			return
 		}
+		if s.HasEnum && o.WrappedEnum {
+			if oo, isObj := out.(jsonx.Obj); isObj && len(oo) == 1 && oo[0].K == "Value" && jsonx.Equal(oo[0].V, in) {
+				return
+			}
+		}
 		if in == nil {
 			if _, isObj := out.(jsonx.Obj); isObj && o.NullObjZero && len(mergedView(s).Props) > 0 {
 				return
@@ -104,6 +111,29 @@ func CompareOut(s *sg.Schema, in, out any, o OutOpts) []OutDiff {
 		case jsonx.Obj:
 			if len(view.Props) == 0 {
 				// map-typed or free-form object
+				if s.AddProps != nil {
+					tout, ok := out.(jsonx.Obj)
+					if !ok {
+						if !(len(tin) == 0 && IsEmptyValue(out)) {
+							add(path, "changed", fmt.Sprintf("object came back as %s", jsonx.Marshal(out)))
+						}
+						return
+					}
+					for _, kv := range tin {
+						ov, has := tout.Get(kv.K)
+						if !has {
+							add(path+"/"+kv.K, "lost", fmt.Sprintf("map entry %s not present after round trip", jsonx.Marshal(kv.V)))
+							continue
+						}
+						cmp(s.AddProps, kv.V, ov, path+"/"+kv.K, depth+1)
+					}
+					for _, kv := range tout {
+						if !tin.Has(kv.K) {
+							add(path+"/"+kv.K, "unexpected", "map entry appears only in the output")
+						}
+					}
+					return
+				}
 				if !jsonx.Equal(in, out) && !(len(tin) == 0 && IsEmptyValue(out)) {
 					add(path, "changed", fmt.Sprintf("object %s came back as %s", jsonx.Marshal(in), jsonx.Marshal(out)))
 				}
@@ -157,6 +187,8 @@ func CompareOut(s *sg.Schema, in, out any, o OutOpts) []OutDiff {
 						if has && !IsEmptyValue(got) {
 							add(path, "addprops", fmt.Sprintf("no undeclared keys but AdditionalProperties=%s", jsonx.Marshal(got)))
 						}
+					} else if o.AddPropFloat && has && equalUpToFloat(got, extra) {
+						// explained by the defect model
 					} else if !has || !jsonx.Equal(got, extra) {
 						add(path, "addprops", fmt.Sprintf("undeclared keys %s collected as %s", jsonx.Marshal(extra), jsonx.Marshal(got)))
 					}
@@ -226,4 +258,28 @@ func CompareOut(s *sg.Schema, in, out any, o OutOpts) []OutDiff {
 	}
 	cmp(s, in, out, "", 0)
 	return diffs
+}
+
+// equalUpToFloat compares the collected additional properties with the expected ones, ignoring integer values
+// beyond 2^53 (defect model AddPropFloat).
+func equalUpToFloat(got any, want jsonx.Obj) bool {
+	g, ok := got.(jsonx.Obj)
+	if !ok || len(g) != len(want) {
+		return false
+	}
+	for _, kv := range want {
+		gv, has := g.Get(kv.K)
+		if !has {
+			return false
+		}
+		if n, isNum := kv.V.(jsonx.Num); isNum {
+			if f := n.Float(); f > 9007199254740992 || f < -9007199254740992 {
+				continue
+			}
+		}
+		if !jsonx.Equal(gv, kv.V) {
+			return false
+		}
+	}
+	return true
 }
